@@ -32,8 +32,11 @@ def cases(tier, seed):
                 "nproc": 1, "group": "/" if h % 5 else "/c"}
         if h % 40 == 7:
             case["nproc"] = rng.choice([2, 3])          # real process pools (slow): a few
-        if h % 9 == 5:
+        if h % 9 == 5 or h % 16 == 3:
             case["via"] = "cli"
+            case["fieldstyle"] = h % 3
+            if h % 16 == 3:
+                case["aggs"] = [rng.choice(["max", "min"])] + case["aggs"][1:]      # a non-default aggregate for count
         if h % 6 == 1 and ncols == 1:
             case["scale"] = 4                            # float64 counts: multiples of 0.25
         yield "co.coarsen", case
